@@ -111,9 +111,14 @@ CHECKS.update({
              "insert/append, compared byte-wise and structurally with a reference model of field texts.",
         technique="contract-based deductive verification of the ordering containers (heap as arrays, representation invariants; SMT) + "
                   "bounded stand-in (reference-model comparison over generated documents and histories)"),
- "C20": bounded_only("histories of read/insert/derivations are run on the real DB and on a reference model that shares and copies set objects as "
-        "documented; every live collection is compared after every step; the recorded findings are re-demonstrated by their specific histories;",
-        "DESIGN.md §5 C20"),
+ "C20": dict(bounded_only("", "DESIGN.md §5 C20"),
+        text="Only the simplest functions are under contract (has_package, has_tag, package_count, tag_count, reverse(): membership / "
+             "size of the right index, the same dictionary objects swapped). The property itself - the two indexes stay mutually "
+             "inverse and the queries agree with a reference relation - is about dictionaries of shared mutable set objects; it is decided "
+             "by a bounded stand-in: histories of read / insert / derivations are run on the real DB and on a reference model that shares "
+             "and copies set objects as documented; every live collection is compared after every step, every query method and a pickle "
+             "round trip are compared with the relation; the recorded findings are re-demonstrated by their specific histories.",
+        technique="bounded stand-in (sharing-aware reference model over operation histories) + contracts on the elementary queries"),
  "C02": dict(bounded_only("", "DESIGN.md §5 C02"),
         text="Lemmas about the real line patterns are proved for all lines by SMT (dumped 'Key: first' / 'Key:' lines match _single / _multi "
              "and the groups capture exactly key and first line; continuation lines never start a field and are kept; encoded field lines "
